@@ -718,14 +718,31 @@ impl World {
     }
 
     fn raw(&self, c: &Value, tx: &Transaction, ws: &[Vec<u8>]) -> Result<Result<Signature, Status>, String> {
+        self.raw_pt(c, tx, ws, &self.point)
+    }
+
+    fn raw_pt(&self, c: &Value, tx: &Transaction, ws: &[Vec<u8>], point: &PublicKey) -> Result<Result<Signature, Status>, String> {
         let n = c["n"].as_u64().unwrap();
         let off = htlc_infos(&c["off"]);
         let rcv = htlc_infos(&c["rcv"]);
         catch(|| {
             self.fx.node.with_channel(&self.id, |chan| {
-                chan.sign_counterparty_commitment_tx(tx, ws, &self.point, n, c["fr"].as_u64().unwrap() as u32, off.clone(), rcv.clone())
+                chan.sign_counterparty_commitment_tx(tx, ws, point, n, c["fr"].as_u64().unwrap() as u32, off.clone(), rcv.clone())
             })
         })
+    }
+
+    /// the content the signer holds for the latest counterparty commitment, read back from its state
+    fn recorded(&self) -> Value {
+        let info = catch(|| self.fx.node.with_channel(&self.id, |chan| Ok(chan.enforcement_state.current_counterparty_commit_info.clone())));
+        let hl = |v: &Vec<HTLCInfo2>| -> Vec<Value> {
+            v.iter().map(|h| json!({"v": h.value_sat, "h": h.payment_hash.0[0], "cl": h.cltv_expiry})).collect()
+        };
+        match info {
+            Ok(Ok(Some(i))) => json!({"some": true, "fr": i.feerate_per_kw, "to_h": i.to_countersigner_value_sat, "to_c": i.to_broadcaster_value_sat,
+                                      "off": hl(&i.offered_htlcs), "rcv": hl(&i.received_htlcs)}),
+            _ => json!({"some": false, "fr": 0, "to_h": 0, "to_c": 0, "off": [], "rcv": []}),
+        }
     }
 }
 
@@ -772,7 +789,7 @@ fn run_base(b: &Value) -> Vec<Value> {
             rows.push(json!({"k": "base", "b": b["b"], "name": b["name"], "S": sv, "C": c, "hist": b["hist"], "setup_ok": false,
                              "setup": e, "htx": [], "sem": {"ok": false, "tag": "nosetup", "canon": false, "hs": []},
                              "sem2": {"ok": false, "tag": "nosetup", "canon": false, "same": false}}));
-            for mu in b["muts"].as_array().unwrap() {
+            for mu in b["muts"].as_array().unwrap().iter().chain(b["retries"].as_array().unwrap().iter()) {
                 rows.push(json!({"k": "skip", "b": b["b"], "id": mu["id"]}));
             }
             return rows;
@@ -842,32 +859,36 @@ fn run_base(b: &Value) -> Vec<Value> {
     // ---- the semantic entry point
     let sem = w.sem(c, &w.point);
     let chtlc = w.key("chtlc");
-    let (sem_json, sem_sig) = match &sem {
-        Ok(Ok((sig, hsigs))) => {
-            let mut hs = vec![];
-            for (k, hsig) in hsigs.iter().enumerate() {
-                // against which second-level transaction (own index first) and with which sighash type?
-                let mut found = (0usize, "none");
-                let mut order: Vec<usize> = vec![];
-                if k < htx_txs.len() {
-                    order.push(k);
-                }
-                order.extend((0..htx_txs.len()).filter(|j| *j != k));
-                'search: for j in order {
-                    for (typ, name) in [(EcdsaSighashType::All, "all"), (EcdsaSighashType::SinglePlusAnyoneCanPay, "single_acp")] {
-                        if verifies(&htx_txs[j], &htlc_scripts[j].0, htlc_scripts[j].1, typ, hsig, &chtlc) {
-                            found = (j + 1, name);
-                            break 'search;
-                        }
+    // against which second-level transaction OF THE BASE'S CONTENT (own index first) does each HTLC
+    // signature verify, and with which sighash type?
+    let classify_hs = |hsigs: &Vec<Signature>| -> Vec<Value> {
+        let mut hs = vec![];
+        for (k, hsig) in hsigs.iter().enumerate() {
+            let mut found = (0usize, "none");
+            let mut order: Vec<usize> = vec![];
+            if k < htx_txs.len() {
+                order.push(k);
+            }
+            order.extend((0..htx_txs.len()).filter(|j| *j != k));
+            'search: for j in order {
+                for (typ, name) in [(EcdsaSighashType::All, "all"), (EcdsaSighashType::SinglePlusAnyoneCanPay, "single_acp")] {
+                    if verifies(&htx_txs[j], &htlc_scripts[j].0, htlc_scripts[j].1, typ, hsig, &chtlc) {
+                        found = (j + 1, name);
+                        break 'search;
                     }
                 }
-                hs.push(json!({"j": found.0, "typ": found.1}));
             }
-            (json!({"ok": true, "tag": "ok", "canon": w.commit_sig_verifies(&canon_tx, sig), "hs": hs}), Some(*sig))
+            hs.push(json!({"j": found.0, "typ": found.1}));
         }
-        Ok(Err(st)) => (json!({"ok": false, "tag": tag_of(st), "canon": false, "hs": [], "msg": st.message().chars().take(160).collect::<String>()}), None),
-        Err(p) => (json!({"ok": false, "tag": "panic", "canon": false, "hs": [], "msg": p.chars().take(160).collect::<String>()}), None),
+        hs
     };
+    let (sem_json, sem_sig, sem_hsigs) = match &sem {
+        Ok(Ok((sig, hsigs))) =>
+            (json!({"ok": true, "tag": "ok", "canon": w.commit_sig_verifies(&canon_tx, sig), "hs": classify_hs(hsigs)}), Some(*sig), hsigs.clone()),
+        Ok(Err(st)) => (json!({"ok": false, "tag": tag_of(st), "canon": false, "hs": [], "msg": st.message().chars().take(160).collect::<String>()}), None, vec![]),
+        Err(p) => (json!({"ok": false, "tag": "panic", "canon": false, "hs": [], "msg": p.chars().take(160).collect::<String>()}), None, vec![]),
+    };
+    let rec_first = w.recorded();
     // the same request again (a retry in the state the first one left)
     let mut after = w.snap();
     let sem2_json = if sem_sig.is_some() {
@@ -886,7 +907,58 @@ fn run_base(b: &Value) -> Vec<Value> {
     slog["of"] = json!({"hc": [w.of_hc.0, w.of_hc.1], "ch": [w.of_ch.0, w.of_ch.1]});
     rows.push(json!({"k": "base", "b": b["b"], "name": b["name"], "S": slog, "C": c, "hist": hist, "setup_ok": true, "setup": "ok",
                      "reach": reach, "reached": reached,
-                     "canon": canon.json(), "ldk_built": ldk.is_ok(), "ldk_eq": ldk_eq, "htx": htx, "sem": sem_json, "sem2": sem2_json}));
+                     "canon": canon.json(), "ldk_built": ldk.is_ok(), "ldk_eq": ldk_eq, "htx": htx, "sem": sem_json, "sem2": sem2_json, "rec": rec_first}));
+
+    // ---- RETRIES: a second request for the same number after the accepted first one, both entry points
+    for rt in b["retries"].as_array().unwrap() {
+        if sem_sig.is_none() {
+            rows.push(json!({"k": "skip", "b": b["b"], "id": rt["id"]}));
+            continue;
+        }
+        let c2 = &rt["C2"];
+        let ep = rt["ep"].as_str().unwrap();
+        let other_pt = c2["pt"] != c["pt"];
+        let point2 = if other_pt { w.other_point } else { w.point };
+        w.restore(&after);
+        w.approve(c2);
+        let (resp, panicked) = if ep == "sem" {
+            match w.sem(c2, &point2) {
+                Ok(Ok((sig, hsigs))) => (json!({"ok": true, "tag": "ok", "canon": w.commit_sig_verifies(&canon_tx, &sig), "same": Some(sig) == sem_sig,
+                                                "hs": classify_hs(&hsigs), "hsame": hsigs == sem_hsigs}), false),
+                Ok(Err(st)) => (json!({"ok": false, "tag": tag_of(&st), "canon": false, "same": false, "hs": [], "hsame": false}), false),
+                Err(p) => (json!({"ok": false, "tag": "panic", "canon": false, "same": false, "hs": [], "hsame": false, "msg": p.chars().take(120).collect::<String>()}), true),
+            }
+        } else {
+            // the canonical transaction of C2 (keys of C2's per-commitment point)
+            if other_pt {
+                std::mem::swap(&mut w.point, &mut w.other_point);
+            }
+            let mut outs2: Vec<AOut> = rt["outs2"].as_array().unwrap().iter().map(AOut::parse).collect();
+            w.sort(&mut outs2);
+            w.fill_sk(&mut outs2);
+            let atx2 = ATx { ver: canon.ver, lt: canon.lt, ins: canon.ins.clone(), outs: outs2 };
+            let tx2 = w.encode(&atx2);
+            let wsb2: Vec<Vec<u8>> = atx2.outs.iter().map(ws_of_out).map(|x| w.ws_bytes(&x)).collect();
+            if other_pt {
+                std::mem::swap(&mut w.point, &mut w.other_point);
+            }
+            match w.raw_pt(c2, &tx2, &wsb2, &point2) {
+                Ok(Ok(sig)) => (json!({"ok": true, "tag": "ok", "canon": w.commit_sig_verifies(&canon_tx, &sig), "same": Some(sig) == sem_sig,
+                                       "hs": [], "hsame": true, "sub": w.commit_sig_verifies(&tx2, &sig)}), false),
+                Ok(Err(st)) => (json!({"ok": false, "tag": tag_of(&st), "canon": false, "same": false, "hs": [], "hsame": false}), false),
+                Err(p) => (json!({"ok": false, "tag": "panic", "canon": false, "same": false, "hs": [], "hsame": false, "msg": p.chars().take(120).collect::<String>()}), true),
+            }
+        };
+        let rec = if panicked { json!({"some": false, "fr": 0, "to_h": 0, "to_c": 0, "off": [], "rcv": []}) } else { w.recorded() };
+        rows.push(json!({"k": "retry", "b": b["b"], "id": rt["id"], "kind": rt["kind"], "ep": ep, "C2": c2, "resp": resp, "rec": rec}));
+        if panicked {
+            let (w2, _, fresh2) = prepare(b).expect("rebuild");
+            w = w2;
+            fresh = fresh2;
+            let _ = w.sem(c, &w.point);
+            after = w.snap();
+        }
+    }
 
     // ---- the raw entry point on every mutation
     for mu in b["muts"].as_array().unwrap() {
@@ -956,12 +1028,13 @@ fn run() {
     }
     all.sort_by_key(|x| x.0);
     let mut wr = NdJson::create(&out);
-    let (mut nbase, mut nraw, mut ok, mut refused, mut panics, mut skipped) = (0u64, 0u64, 0u64, 0u64, 0u64, 0u64);
+    let (mut nbase, mut nraw, mut ok, mut refused, mut panics, mut skipped, mut nretry) = (0u64, 0u64, 0u64, 0u64, 0u64, 0u64, 0u64);
     for (_, rows) in all.iter() {
         for r in rows {
             match r["k"].as_str().unwrap() {
                 "base" => nbase += 1,
                 "skip" => skipped += 1,
+                "retry" => nretry += 1,
                 "raw" => {
                     nraw += 1;
                     if r["resp"]["ok"] == true {
@@ -978,7 +1051,7 @@ fn run() {
         }
     }
     wr.finish();
-    println!("{}", json!({"bases": nbase, "raw": nraw, "ok": ok, "refused": refused, "panics": panics, "skipped": skipped}));
+    println!("{}", json!({"bases": nbase, "raw": nraw, "ok": ok, "refused": refused, "panics": panics, "skipped": skipped, "retries": nretry}));
 }
 
 /// does the real setup_channel accept a channel with these contest delays?
